@@ -41,7 +41,7 @@ def write_prog(prog, path):
 
 
 def run_driver(exe, out, seed, profile, ops, maxlive, extra=(), env=None, timeout=300):
-    cmd = [exe, "--out", out, "--seed", str(seed), "--profile", profile, "--ops", str(ops), "--maxlive", str(maxlive)] + list(extra)
+    cmd = [exe, "--out", out, "--seed", str(seed), "--profile", profile, "--ops", str(ops), "--maxlive", str(maxlive), "--segs", "1"] + list(extra)
     rc, o = vlib.sh(cmd, timeout=timeout, env=env)
     return rc, o
 
@@ -162,6 +162,7 @@ def run_api(prop, tier, seed, profiles, builds, own_guards, crash_decisive=False
             raise vlib.InfraError("driver failed rc=%d: %s" % (rc, o[-2000:]))
     vlib.check_complete(V, prop, res, traces, what=lambda t: "%s.%s" % (t[2], t[1]))
     log("  ran %d implementation executions in %.1fs" % (len(jobs), time.time() - t0))
+    segcov = vlib.seg_pass(V, prop, [t[0] for t in traces])
 
     # ---- TV: group traces so one JVM validates several executions
     nat = [t for t in traces if t[5] is None]
@@ -217,7 +218,8 @@ def run_api(prop, tier, seed, profiles, builds, own_guards, crash_decisive=False
     if mc["violation"]:
         raise vlib.InfraError("the bounded MiApi model violates its own invariants (specification error):\n" + mc["out"][-3000:])
     events, opcount = summarize_traces([t[0] for t in traces])
-    cov = {
+    cov = dict(segcov)
+    cov.update({
         "states": mc["distinct"], "transitions": mc["generated"], "mc_depth": mc["depth"], "mc_config": mc_cfg[q],
         "traces_validated_against_impl": len(traces), "trace_events_validated": consumed, "trace_events_total": events,
         "programs_generated_by_tlc": len(progs), "native_runs": len(nat), "builds": list(builds), "profiles": list(profiles),
@@ -225,7 +227,7 @@ def run_api(prop, tier, seed, profiles, builds, own_guards, crash_decisive=False
         "decisive_guards": sorted(own_guards) + ([CRASH] if crash_decisive else []),
         "samples": vlib.sample_lines(traces[0][0], 4) + ([json.dumps(progs[0])[:600]] if progs else []),
         "exhaustive": False,
-    }
+    })
     if level_extra:
         cov.update(level_extra)
     if not finish:
